@@ -172,6 +172,24 @@ func widthSafe(sortedHashes []uint64, df, thr int) bool {
 	return rec(top, 0)
 }
 
+// allowNarrow: contents with more than thr ids inside a range narrower than df are legal since
+// fix-width (the range stays undivided). It is switched off for the rest of the run when the
+// regression child (width.go) shows that the real code still recurses without bound on them — a
+// fatal stack overflow cannot be recovered in process.
+var allowNarrow = true
+
+func excludeNarrow(r *corr.Run, sortedHashes []uint64, df, thr int) bool {
+	if widthSafe(sortedHashes, df, thr) {
+		return false
+	}
+	if allowNarrow {
+		r.Count("gen.narrow-over-threshold")
+		return false
+	}
+	r.Count("gen.width-excluded")
+	return true
+}
+
 func (w *world) hashesOf(cs ...contents) []uint64 {
 	seen := map[int]bool{}
 	var hs []uint64
@@ -259,6 +277,45 @@ func genWorld(r *corr.Run, kind string, n, df int) *world {
 		for i := 0; i < n; i++ {
 			ids = append(ids, crafted(base+uint64(i)*step))
 		}
+	case "narrow":
+		// fix-width universes: many ids inside grid ranges of width 1, 2, df-1, df, df+1 found at
+		// several depths by random descents (width 1 needs genuine xxhash collisions: same target,
+		// different crafted prefix), plus ids in the neighbouring parts
+		type cand struct {
+			r rng
+		}
+		var cands []cand
+		want := map[uint64]bool{0: true, 1: true, uint64(df) - 2: true, uint64(df) - 1: true, uint64(df): true}
+		for d := 0; d < 8; d++ {
+			cur := top
+			for depth := 0; depth < 80; depth++ {
+				if want[cur.span()] {
+					cands = append(cands, cand{cur})
+				}
+				if cur.narrow(df) {
+					break
+				}
+				cs := split(cur, df)
+				cur = cs[r.Intn(len(cs))]
+			}
+		}
+		if len(cands) == 0 {
+			cands = append(cands, cand{top})
+		}
+		for len(ids) < n {
+			c := cands[r.Intn(len(cands))].r
+			k := 1 + r.Intn(5)
+			for j := 0; j < k && len(ids) < n; j++ {
+				h := r.Rand.Uint64()
+				if c.span() != math.MaxUint64 {
+					h = c.from + h%(c.span()+1)
+				}
+				if r.Chance(15) {
+					h = c.to + 1 // just outside
+				}
+				ids = append(ids, crafted(h))
+			}
+		}
 	default: // mixed
 		base := r.Rand.Uint64()
 		k := 3 + r.Intn(30)
@@ -279,4 +336,4 @@ func genWorld(r *corr.Run, kind string, n, df int) *world {
 	return newWorld(ids)
 }
 
-var worldKinds = []string{"natural", "deep", "deep", "boundary", "adjacent", "mixed"}
+var worldKinds = []string{"natural", "deep", "deep", "boundary", "adjacent", "mixed", "narrow", "narrow"}
